@@ -181,3 +181,34 @@ Proof.
   destruct (v =? to)%nat eqn:A; destruct (v =? from)%nat eqn:B;
     rewrite ?Nat.eqb_eq, ?Nat.eqb_neq in *; try lia; nia.
 Qed.
+
+(* ---------------------------------------------------------------- through augment *)
+Lemma pair_count_self rf v : pair_count rf v v <> 1%nat.
+Proof. unfold pair_count. lia. Qed.
+
+Theorem augment_conserves nv c pi rf : length c = nv ->
+  forall fuel prev k to dl e x rb e' x' rb',
+  ghost nv c pi rf rb -> length e = nv ->
+  (forall f t, In (f, t) (hops fuel prev k to) -> (f < nv)%nat /\ (t < nv)%nat /\ pair_count rf f t = 1%nat) ->
+  augment fuel prev k to dl e x rb = Some (e', x', rb') ->
+  forall v, bal nv e' rb' v = bal nv e rb v.
+Proof.
+  intros LC. induction fuel as [|f IH]; intros prev k to dl e x rb e' x' rb' G LE HH; cbn [augment]; [discriminate|].
+  destruct (upd_first_x (nth (nth to prev O) x []) to (fun fl => fl + dl)) as [xf|]; [|discriminate]. cbn [bind].
+  set (from := nth to prev O) in *.
+  assert (H0 : (from < nv)%nat /\ (to < nv)%nat /\ pair_count rf from to = 1%nat).
+  { apply HH. cbn [hops]. left. reflexivity. }
+  destruct H0 as [Hf [Ht PC]].
+  assert (NE : from <> to) by (intros X; rewrite X in PC; apply (pair_count_self rf to); auto).
+  pose proof (hop_conserves nv c pi rf rb e from to dl LC G LE Hf Ht NE PC) as HC. cbv zeta in HC.
+  pose proof (ghost_rb_caps nv c LC pi rf rb to (from, fun c0 => c0 + dl) G) as G1. cbn [fst snd] in G1.
+  pose proof (ghost_rb_caps nv c LC pi rf _ from (to, fun c0 => c0 - dl) G1) as G2. cbn [fst snd] in G2.
+  destruct (from =? k)%nat eqn:EK.
+  - intros X. injection X as <- _ <-. exact HC.
+  - intros X v.
+    assert (LE2 : length (upd (upd e to (fun v0 => v0 + dl)) from (fun v0 => v0 - dl)) = nv)
+      by (rewrite !upd_length_local; auto).
+    assert (HH2 : forall f0 t0, In (f0, t0) (hops f prev k from) -> (f0 < nv)%nat /\ (t0 < nv)%nat /\ pair_count rf f0 t0 = 1%nat).
+    { intros f0 t0 Hin. apply HH. cbn [hops]. fold from. rewrite EK. right. exact Hin. }
+    rewrite (IH prev k from dl _ _ _ e' x' rb' G2 LE2 HH2 X v). apply HC.
+Qed.
